@@ -259,13 +259,13 @@ func runC08(c *core.Ctx) {
 	// index keys REPLACED on a long-lived issuer: the ID and Evaluate's second value depend on the index key the origin has
 	// NOW (AddOriginWithIndexKey for a known origin replaces its key), not on anything derived from an earlier one
 	{
-		rot := mkIssuer()
 		alt := [][]byte{ScalarBytes(setup, N, 48), ScalarBytes(setup, N, 48)}
 		for rs := 0; rs < c.Pick(12, 300); rs++ {
 			if !c.Next() {
 				continue
 			}
 			r := c.CaseRng()
+			rot := mkIssuer() // one issuer per history (its origins start with their original index keys)
 			ci, o := r.IntN(nClients), r.IntN(2)
 			keysInOrder := [][]byte{dOf(o), alt[0], dOf(o), alt[1], alt[0]}
 			var trace []string
